@@ -100,4 +100,16 @@ package discov
 //@ func newContainer
 //@   property C13
 //@   ensures  fresh(result) && result.exclusive == exclusive
+//@   modifies abVal
 //@   allocates
+
+// NewSubscriber: the container is created AFTER the options have been applied, with the exclusiveness they chose (created
+// earlier it would always be non-exclusive), and it is that container that is registered as the listener
+//@ func NewSubscriber
+//@   property C13
+//@   flag nopanic:opt
+//@   ghost at after newContainer#0: ct = ret
+//@   call opt#0: modifies sub.exclusive, sub.exactMatch
+//@   call opt#0: assert arg0 == sub
+//@   call Monitor#0: assert arg_l == ct && ct.exclusive == sub.exclusive && arg_key == key && arg_exactMatch == sub.exactMatch && sameSlice(arg_endpoints, endpoints)
+//@   loop 0: invariant sub != nil
